@@ -11,6 +11,9 @@ from chk_chanconc import PLATFORM_WRAPS, run_many, concat, exec_of
 
 RULES = {"FrameIdInvalid", "FrameIdNotIncreasing", "FrameWithoutTrigger", "FrameIdBeyondTriggers", "StopDidNotReturn",
          "FrameCallNotReleased", "HangOther"}
+# C17 clauses SimCamStreamObs also evaluates on these executions (a camera re-configured while a frame call is pending);
+# they are judged by the C17 check (chk_simcam_cfg.py calls reshape_family below), not by C18
+RULES_C17 = {"FrameWritesPastImage", "FrameNotFilled"}
 
 
 def build(bdir):
@@ -27,7 +30,7 @@ def build(bdir):
     return link(os.path.join(bdir, "simcam_vs"), objs, wraps(PLATFORM_WRAPS))
 
 
-def gen_config(rng, out):
+def gen_config(rng, out, reshape=False):
     lines = ["seed %d" % rng.randint(1, 10**9)]
     strat = rng.choice(["random", "random", "pct", "starve", "starve"])
     lines.append("strategy " + strat)
@@ -42,6 +45,8 @@ def gen_config(rng, out):
     ctl = []
     for run in range(rng.randint(1, 3)):
         # re-configuration while stopped: any number of trigger toggles (incl. off-and-on-again) before the next start
+        if reshape and rng.random() < 0.4:
+            ctl += ["setshape", str(rng.choice([2, 4, 8, 33, 64])), str(rng.choice([1, 4, 17, 32])), str(rng.choice([0, 1, 4]))]
         for _ in range(rng.choice([0, 0, 0, 1, 2, 2, 3])):
             trig = 1 - trig
             ctl += ["settrig", str(trig)]
@@ -59,6 +64,9 @@ def gen_config(rng, out):
                 ctl += ["settrig", str(trig)]
             elif r < 0.75:
                 ctl += ["settrig", str(trig)]      # a reconfiguration while running that leaves the trigger setting as it is
+            elif reshape and r < 0.95:
+                # another shape / sample type while running (a frame call may be pending): SampleType u8 u16 i8 i16 f32 u10 u12 u14
+                ctl += ["setshape", str(rng.choice([1, 3, 4, 16, 33, 64])), str(rng.choice([1, 2, 5, 17, 40])), str(rng.choice([0, 1, 2, 3, 4, 6]))]
             ctl += ["yield", str(rng.choice([0, 1, 3, 8, 20, 60]))]
         if rng.random() < 0.3:
             ctl += ["waitframes", str(rng.randint(1, 3))] if not trig else []
@@ -81,12 +89,15 @@ def validate(trace, workdir):
     return v[0]
 
 
-def judge(chk, trace, idx, cfgs, bdir):
+def judge(chk, trace, idx, cfgs, bdir, rules=None):
+    rules = rules or RULES
     v = validate(trace, bdir)
     lines = open(trace).read().splitlines()
     per = {}
     for rule, line in v["bad"]:
-        if rule not in RULES:
+        if rule not in rules:
+            if rule in RULES | RULES_C17:
+                continue     # the other property's clause
             raise Broken("SimCamStreamObs flagged %s at line %d: %s" % (rule, line, lines[line - 1][:200]))
         e = exec_of(idx, line)
         first = [f for f, i in idx if i == e][0]
@@ -132,6 +143,36 @@ def model_cfg(path, enable, runs, maxtrig, maxget, fixed, props=True):
     return write_cfg(path, t)
 
 
+def reshape_family(chk, bdir, n, rng):
+    """C17 on the concurrent camera: executions in which shape and sample type change while the camera runs (a frame call may
+    be pending), judged by SimCamStreamObs' C17 clauses. Called by chk_simcam_cfg.py."""
+    sub = os.path.join(bdir, "vs")
+    exe = build(sub)
+    cfgs, traces = [], []
+    for i in range(n):
+        out = os.path.join(sub, "s_%d.ndjson" % i)
+        p = os.path.join(sub, "s_%d.cfg" % i)
+        open(p, "w").write(gen_config(rng, out, reshape=True))
+        cfgs.append(p); traces.append(out)
+    res = run_many(exe, cfgs, timeout=120)
+    bad = [(c, rc, o) for c, (rc, o) in zip(cfgs, res) if rc != 0]
+    if bad:
+        crash_or_broken(bad[0][1], bad[0][2], "simcam_vs", "simcam_vs on " + open(bad[0][0]).read().replace("\n", "; ")[:600])
+    allp = os.path.join(sub, "all.ndjson")
+    idx = concat(traces, allp)
+    v = judge(chk, allp, idx, cfgs, sub, rules=RULES_C17)
+    txt = open(allp).read()
+    nset = txt.count('"e":"SetTrig"')
+    nframes = sum(1 for l in txt.splitlines() if '"GetFrameRet"' in l and '"rc":0' in l and '"nbytes":0' not in l)
+    if nframes < n // 4 or nset < n // 2:
+        raise Broken("vacuous reshape family: %d frames, %d sets in %d runs" % (nframes, nset, n))
+    chk.cov["reconfigure_while_running"] = {"runs": n, "sets": nset, "data_frames": nframes, "events": v["consumed"]}
+    for f in traces + cfgs + [allp]:
+        try: os.remove(f)
+        except OSError: pass
+    return v["consumed"]
+
+
 def main(prop, tier):
     chk = Check(prop, tier, "model_checking")
     bdir = build_dir(prop)
@@ -153,7 +194,7 @@ def main(prop, tier):
         for i in range(n):
             out = os.path.join(bdir, "r_%d.ndjson" % i)
             p = os.path.join(bdir, "r_%d.cfg" % i)
-            open(p, "w").write(gen_config(rng, out))
+            open(p, "w").write(gen_config(rng, out, reshape=(i % 5 == 4)))
             cfgs.append(p); traces.append(out)
         res = run_many(exe, cfgs, timeout=120)
         bad = [(c, rc, o) for c, (rc, o) in zip(cfgs, res) if rc != 0]
